@@ -444,7 +444,7 @@ def run(ctx: Ctx):
     pool = multiprocessing.get_context("fork").Pool(nproc)      # forked before any thread exists
     try:
         # ---- TLC runs (threads) -----------------------------------------------------------
-        n_rand1, n_rand2 = (2, 1) if ctx.quick else (60, 40)
+        n_rand1, n_rand2 = (2, 1) if ctx.quick else (40, 24)
         rand_lats = [random_lattice(rng, 1) for _ in range(n_rand1)] + [random_lattice(rng, 2) for _ in range(n_rand2)]
         if ctx.quick:
             plans = [("quick", "LatsQuick", "[]"), ("random", "LatsFile", json.dumps(rand_lats))]
